@@ -5,6 +5,7 @@ go 1.24.0
 require (
 	deps.dev/util/resolve v0.0.0-20250310223405-f4cf91c9e684
 	deps.dev/util/semver v0.0.0-20250307021655-d811e36f9cad
+	github.com/BurntSushi/toml v1.3.2
 	github.com/CycloneDX/cyclonedx-go v0.9.0
 	github.com/go-git/go-git/v5 v5.14.0
 	github.com/gobwas/glob v0.2.3
@@ -14,13 +15,13 @@ require (
 	github.com/package-url/packageurl-go v0.1.2
 	github.com/spdx/tools-golang v0.5.3
 	golang.org/x/mod v0.21.0
+	gopkg.in/yaml.v3 v3.0.1
 )
 
 require (
 	deps.dev/api/v3 v3.0.0-20250307021655-d811e36f9cad // indirect
 	deps.dev/util/maven v0.0.0-20250307021655-d811e36f9cad // indirect
 	deps.dev/util/pypi v0.0.0-20250307021655-d811e36f9cad // indirect
-	github.com/BurntSushi/toml v1.3.2 // indirect
 	github.com/GehirnInc/crypt v0.0.0-20230320061759-8cc1b52080c5 // indirect
 	github.com/anchore/go-struct-converter v0.0.0-20230627203149-c72ef8859ca9 // indirect
 	github.com/containerd/containerd v1.7.27 // indirect
@@ -101,7 +102,6 @@ require (
 	google.golang.org/protobuf v1.36.5 // indirect
 	gopkg.in/ini.v1 v1.67.0 // indirect
 	gopkg.in/warnings.v0 v0.1.2 // indirect
-	gopkg.in/yaml.v3 v3.0.1 // indirect
 	sigs.k8s.io/yaml v1.4.0 // indirect
 	www.velocidex.com/golang/regparser v0.0.0-20240404115756-2169ac0e3c09 // indirect
 )
